@@ -199,6 +199,8 @@ var c14CasesInProcess int
 // tunnel-metadata index, registry lookups, every action kind, packet and DHCP construction - and requires that they
 // all produced the same bytes (the race detector watches the initialisation).
 func coldStorm(c *fw.Ctx, seed uint64) {
+	gen.HoldDefaults.Store(true)
+	defer gen.HoldDefaults.Store(false)
 	const G = 24
 	digests := make([][]uint64, G)
 	start := make(chan struct{})
@@ -210,6 +212,14 @@ func coldStorm(c *fw.Ctx, seed uint64) {
 			<-start
 			var d []uint64
 			add := func(b []byte) { d = append(d, prng.Hash64(b)) }
+			// the very first thing every goroutine does: name lookups in spellings other than the registry's own
+			// (lower case as ovs-ofctl prints them, mixed case), which no earlier call in this process has used
+			for _, n := range []string{"nxm_nx_reg0", "Nxm_Nx_Ct_Zone", "oxm_of_metadata", "nxm_nx_xxreg2"} {
+				if f, err := of.FindFieldHeaderByName(n, true); err == nil {
+					add([]byte(fmt.Sprintf("%d/%d/%d", f.Class, f.Field, f.Length)))
+				}
+			}
+			d = append(d, 0xfeedface+4)
 			order := prng.Derive(seed, uint64(g)).Perm(4)
 			for _, phase := range order { // each goroutine visits the phases in its own order
 				switch phase {
@@ -266,14 +276,14 @@ func coldStorm(c *fw.Ctx, seed uint64) {
 		parts := map[uint64][]uint64{}
 		var cur []uint64
 		for _, x := range d {
-			if x >= 0xfeedface && x < 0xfeedface+4 {
+			if x >= 0xfeedface && x < 0xfeedface+5 {
 				parts[x] = cur
 				cur = nil
 				continue
 			}
 			cur = append(cur, x)
 		}
-		return fmt.Sprint(parts[0xfeedface], parts[0xfeedface+1], parts[0xfeedface+2], parts[0xfeedface+3])
+		return fmt.Sprint(parts[0xfeedface], parts[0xfeedface+1], parts[0xfeedface+2], parts[0xfeedface+3], parts[0xfeedface+4])
 	}
 	ref := canon(digests[0])
 	for g := 1; g < G; g++ {
@@ -497,7 +507,6 @@ func c14Disjoint(c *fw.Ctx) {
 		})
 	}
 }
-
 
 // c14Marathon draws 2^24 + 2^17 ids from the process-wide generator on 8 goroutines and checks them for duplicates in a
 // chunked bit set (a counter narrowed to 16, 20 or 24 bits repeats itself within this run; 2^32 is out of reach and
